@@ -266,7 +266,7 @@ var bscMutations = []string{"none", "none", "none", "none", "non_member", "recen
 func (BSCScenario) Generate(rng *rand.Rand, focus, tier string) kernel.Plan {
 	cfg := map[string]int64{
 		"keyseed":     rng.Int63(),
-		"special_seq": kernel.B2I(focus == "C19" || kernel.Chance(rng, 0.3)),
+		"special_seq": kernel.B2I(focus == "C19" || focus == "C01" && kernel.Chance(rng, 0.6) || kernel.Chance(rng, 0.3)),
 		"vals":        1 + rng.Int63n(9),
 		"epoch":       []int64{3, 5, 8, 20, 200}[rng.Intn(5)],
 		"start":       rng.Int63n(4), // start epoch index (0 = height 0)
